@@ -25,7 +25,8 @@ open Gen
 implements `SetNX`, any candidate streams, any pre-existing markers and any interleaving of the
 storage calls with clock ticks: every id handed out was not live at that moment (not pre-existing,
 not handed out earlier and still unreleased within its marker lifetime), exhaustion hands out and
-marks nothing, and the markers in the store are exactly the live ids.  Node-id allocation (claim by
+marks nothing, the markers in the store are exactly the live ids, and every release-own answers a
+hand-out the same caller has not released yet (never a second release).  Node-id allocation (claim by
 `SetNX`, renewal by `Set` in the tier of the claim, `Release`) is the instance `kind = 9`. -/
 theorem C15_main (ttl maxAtt : Nat → Nat) (pre : Store) (progs : List (Nat × List Op)) (σ : List Sch) :
     holds ttl pre (run ⟨true, ttl, maxAtt, true⟩ (init pre progs) σ).trace
@@ -33,6 +34,7 @@ theorem C15_main (ttl maxAtt : Nat → Nat) (pre : Store) (progs : List (Nat × 
                 (run ⟨true, ttl, maxAtt, true⟩ (init pre progs) σ).now) = true :=
   holds_of_inv ⟨true, ttl, maxAtt, true⟩ pre _
     (inv_run_cas ⟨true, ttl, maxAtt, true⟩ pre σ (init pre progs) rfl rfl rfl)
+    (invH_run _ σ _ (invH_init pre progs))
 
 /-! ## What `holds` means: no id is handed out twice while live -/
 
@@ -46,8 +48,8 @@ theorem C15_unique_of_holds (ttl : Nat → Nat) (pre : Store) (view : List Key)
     (h : holds ttl pre (before ++ [.ok t₁ kind id] ++ mid ++ [.ok t₂ kind id] ++ after) view = true) :
     False := by
   unfold holds at h
-  rw [Bool.and_eq_true] at h
-  have hg := h.1
+  rw [Bool.and_eq_true, Bool.and_eq_true] at h
+  have hg := h.1.1
   unfold replay at hg
   simp only [List.foldl_append, List.foldl_cons, List.foldl_nil] at hg
   have hg2 := good_mono ttl _ after hg
@@ -103,6 +105,40 @@ theorem C15_fault_never_hands_out_taken (P : Params) (c : Cfg) (tid : Nat) :
     | exact ⟨by simp [failCfg], _, rfl, failEvs_no_ok P _ _ _⟩
     | exact ⟨rfl, _, rfl, by simp⟩
 
+/-! ## Release clause: a hand-out is released by its holder at most once -/
+
+/-- **Release-own at most once, read off the predicate.** In every prefix `p` of a history accepted by
+`holds`, caller `t` has released "its" id `(kind, id)` at most as often as that id was handed out to
+`t`.  So a second `Release()` of an allocator — which would delete the claim of whoever was handed the
+freed id in the meantime and let a third node be given the same id — is rejected at the release
+itself. -/
+theorem C15_release_own_at_most_once (ttl : Nat → Nat) (pre : Store) (view : List Key)
+    (p q : List Ev) (t kind id : Nat) (h : holds ttl pre (p ++ q) view = true) :
+    p.countP (· == .relo t kind id) ≤ p.countP (· == .ok t kind id) := by
+  unfold holds at h
+  rw [Bool.and_eq_true] at h
+  have hg : ((p ++ q).foldl heldStep ([], true)).2 = true := h.2
+  rw [List.foldl_append] at hg
+  have hp := (held_good_mono q _ hg)
+  have := (held_count (t, (kind, id)) p ([], true) hp).2
+  simp only [List.count_nil, Nat.zero_add] at this
+  omega
+
+/-- The model never releases twice: after its release-own a thread believes it owns nothing, and a
+further release-own is a no-op without a storage call (`if a.nodeID == "" { return nil }`). -/
+example :
+    (run ⟨true, fun _ => 90000, fun _ => 1000, true⟩
+        (init [] [(0, [.gen 9 (fun a => 1 + a), .relOwn, .relOwn]), (1, [.gen 9 (fun a => 1 + a)]),
+                  (2, [.gen 9 (fun a => 1 + a)])])
+        [.step 0, .step 0, .step 1, .step 0, .step 2, .step 2]).trace
+      = [.ok 0 9 1, .relo 0 9 1, .ok 1 9 1, .nop 0, .ok 2 9 2] := by decide
+/-- `holds` rejects the history of an allocator that keeps its id after `Release`: the second release
+frees node 1's live claim and node 2 is given node 1's id. -/
+example : holds (fun _ => 90000) []
+    [.ok 0 9 1, .relo 0 9 1, .ok 1 9 1, .relo 0 9 1, .ok 2 9 1] [(9, 1)] = false := by decide
+example : holds (fun _ => 90000) []
+    [.ok 0 9 1, .relo 0 9 1, .ok 1 9 1, .nop 0, .ok 2 9 2] [(9, 1), (9, 2)] = true := by decide
+
 /-! ## Fallback path (store without `SetNX`): `mu.Lock; Exists; Set; mu.Unlock` -/
 
 /-- **C15, fallback path, one generator instance.** On a store without `SetNX` the
@@ -113,7 +149,7 @@ theorem C15_fallback_single (ttl maxAtt : Nat → Nat) (pre : Store) (I : Nat) (
     holds ttl pre (run ⟨false, ttl, maxAtt, true⟩ (init pre (progs.map (fun p => (I, p)))) σ).trace
       (liveKeys (run ⟨false, ttl, maxAtt, true⟩ (init pre (progs.map (fun p => (I, p)))) σ).store
                 (run ⟨false, ttl, maxAtt, true⟩ (init pre (progs.map (fun p => (I, p)))) σ).now) = true := by
-  apply holds_of_inv ⟨false, ttl, maxAtt, true⟩ pre
+  apply holds_of_inv ⟨false, ttl, maxAtt, true⟩ pre _ ?_ (invH_run _ σ _ (invH_init pre _))
   apply (invF_run ⟨false, ttl, maxAtt, true⟩ pre I σ _ rfl _).inv
   refine ⟨rfl, ?_, ?_, ?_, ?_⟩
   · intro i
@@ -226,11 +262,26 @@ example :
 example : holds (fun _ => 1000) [] [.ok 0 0 7, .ok 1 0 7] [(0, 7)] = false := by decide
 /-- … accepts it after a release or after the marker lifetime … -/
 example : holds (fun _ => 1000) [] [.ok 0 0 7, .rel 0 0 7, .ok 1 0 7] [(0, 7)] = true := by decide
+example : holds (fun _ => 1000) [] [.ok 0 0 7, .relo 0 0 7, .ok 1 0 7] [(0, 7)] = true := by decide
 example : holds (fun _ => 1000) [] [.ok 0 0 7, .tick 1000, .ok 1 0 7] [(0, 7)] = true := by decide
 example : holds (fun _ => 1000) [] [.ok 0 0 7, .tick 999, .ok 1 0 7] [(0, 7)] = false := by decide
 /-- … rejects handing out a pre-existing id, and a marker left behind by an exhausted call. -/
 example : holds (fun _ => 1000) [((0, 7), 0)] [.ok 0 0 7] [(0, 7)] = false := by decide
 example : holds (fun _ => 1000) [((0, 7), 0)] [.exh 0 0] [(0, 7), (0, 8)] = false := by decide
+/-- **Expired, not yet swept markers** are ordinary inputs of `C15_main` (`pre` carries expiry
+instants; an entry whose instant has passed is still in the list).  Slot 1 holds the lapsed lease of a
+crashed node (expiry 1, clock at 3): of two nodes racing for it exactly one gets it, the other moves
+on to slot 2 — and `holds` rejects an observation in which both are given slot 1. -/
+example :
+    (run ⟨true, fun _ => 90000, fun _ => 1000, true⟩
+        (init [((9, 1), 1)] [(0, [.gen 9 (fun a => 1 + a)]), (1, [.gen 9 (fun a => 1 + a)])])
+        [.tick 3, .step 0, .step 1, .step 1]).trace
+      = [.tick 3, .ok 0 9 1, .ok 1 9 2] := by decide
+example : holds (fun _ => 90000) [((9, 1), 1)] [.tick 3, .ok 0 9 1, .ok 1 9 2] [(9, 1), (9, 2)] = true := by decide
+example : holds (fun _ => 90000) [((9, 1), 1)] [.tick 3, .ok 0 9 1, .ok 1 9 1] [(9, 1)] = false := by decide
+/-- Before it expires the same marker is simply taken. -/
+example : holds (fun _ => 90000) [((9, 1), 5)] [.tick 3, .ok 0 9 1] [(9, 1)] = false := by decide
+
 /-- The fallback theorem's hypotheses are inhabited. -/
 example : ∀ p ∈ [[Op.gen 0 (fun a => a), Op.rel 0 1], [Op.relOwn]], Op.renewOwn ∉ p := by
   intro p hp; simp at hp; rcases hp with rfl | rfl <;> simp
